@@ -317,6 +317,11 @@ func (p *Prog) InAnalysed(f *ssa.Function) bool {
 		if f.Origin() != nil {
 			return p.InAnalysed(f.Origin())
 		}
+		// synthetic wrappers (bound-method closures, thunks, interface
+		// method wrappers) belong to the package of the method they wrap
+		if o := f.Object(); o != nil && o.Pkg() != nil {
+			return strings.HasPrefix(o.Pkg().Path(), Root)
+		}
 		return false
 	}
 	return strings.HasPrefix(pk.Pkg.Path(), Root)
